@@ -15,6 +15,7 @@ from vf.engine import Run, model_view, diff_views
 from vf.indep import iso9660, udf as iudf
 from vf.indep.image import Image
 from vf.indep.views import udf_view
+from vf.model import udf_norm
 from vf.propbase import EngineProperty
 from vf.runner import Collector
 
@@ -77,7 +78,7 @@ def oracle(program, aux):
     for p, e in m.t['udf'].items():
         if e['type'] == 'sym' and p in info['tree']:
             t = info['tree'][p].get('target')
-            if t != e['target']:
+            if udf_norm(t) != udf_norm(e['target']):
                 failures.append(('C10/symlink-target', 'udf-tree', 'UDF symlink %r: target %r recovered, %r was given' % (p[:60], (t or '')[:80], e['target'][:80])))
     run.close()
     return run, failures
